@@ -106,7 +106,7 @@ def gen(rng, tier):
             big.insert(rng.randrange(len(big)), t)
         queries.append({"m": rng.choice(["all_features", "features_of_type"]), "featuretype": big,
                         "order_by": rng.choice([None, "start", ["seqid", "start"], "file_order", "length"]), "reverse": False})
-    return {"steps": steps, "queries": queries, "qseed": rng.getrandbits(32), "memory": memory}
+    return {"steps": steps, "queries": queries, "qseed": rng.getrandbits(32), "memory": memory, "failed_update_probe": rng.random() < 0.25}
 
 
 def sort_key(col, f, pos):
@@ -365,6 +365,10 @@ def run(case):
             alive = True
             if not check_state("after %s #%d" % (k, si)):
                 break
+        if alive and not V and not out.get("discarded") and not case.get("memory") and case.get("failed_update_probe") and node.alive:
+            from sim.probes import failed_update_probe
+            if failed_update_probe(w, call, node, "h", DBN, False, V, viol, "C11.read", probes):
+                check_state("after an update that failed part-way")
         out["stats"] = w.stats
     out["trace_hash"] = core.digest(journal)
     out["nontrivial"] = nontrivial
